@@ -63,3 +63,13 @@ Definition run_codec (td : N) (header : list N) (lastn : list (N * list N)) : va
       | None => VL []
       end;
       vlist (fun e : N * list N => VL [VN (fst e); vlist VN (snd e)]) (dec_last_n (length lastn) (enc_last_n lastn))].
+
+From LC Require Export HonestProver.
+Definition run_honest (c : chain) (on_chain : bool) (last_n start last boundary : N) (ds : list N) : val :=
+  let p := plan_response c on_chain last_n start last boundary ds in
+  VL [vlist VN (pl_reorg p); vlist VN (pl_sampled p); vlist VN (pl_last_n p);
+      match matched last_n start boundary ds (response_headers c p) last with
+      | Ok (r, s, l) => VL [VN 0; VN r; VN s; VN l]
+      | Err code => VL [VN 1; VN code]
+      | Panic _ => VL [VN 3]
+      end].
